@@ -241,7 +241,13 @@ class Write:
                     labs = [pool[p] if p >= len(cur) else cur[p] + 1000 for p in posl]
                     strad = {'pos': posl, 'labels': labs, 'values': [[float(rng.randint(80, 99)) for _ in range(nfix)] for _ in posl]}
                     stats['write_kind']['unlimited+straddling list'] += 1
-                cases.append({'kind': 'unlimited', 'tkind': k, 'fixlabs': fixlabs, 'steps': steps, 'overwrite': over, 'straddle': strad, 'fmt': rng.choice(['NETCDF4', 'NETCDF3_CLASSIC']) if all(not isinstance(x, str) for x in fixlabs) else 'NETCDF4'})
+                tlast = rng.random() < 0.25
+                if tlast:
+                    # the unlimited dimension is the LAST one of the variable (v(x, time), legal in NETCDF4): growth by slices only
+                    over = None; strad = None
+                    for st_ in steps: st_['how'] = 'slice'
+                    stats['write_kind']['unlimited, record dimension last'] += 1
+                cases.append({'kind': 'unlimited', 'tkind': k, 'fixlabs': fixlabs, 'steps': steps, 'overwrite': over, 'straddle': strad, 'tlast': tlast, 'fmt': rng.choice(['NETCDF4', 'NETCDF3_CLASSIC']) if all(not isinstance(x, str) for x in fixlabs) else 'NETCDF4'})
         return cases[:n]
 
     @staticmethod
@@ -289,7 +295,7 @@ class Write:
                     try:
                         h.axes.append('time')                                   # unlimited
                         h.axes.append(D.Axis(ops.labs_np(c['fixlabs'], 'O' if isinstance(c['fixlabs'][0], str) else ('f' if isinstance(c['fixlabs'][0], float) else 'i')), 'x'))
-                        h.nc.createVariable('v', 'f8', ('time', 'x'))
+                        h.nc.createVariable('v', 'f8', ('time', 'x') if not c.get('tlast') else ('x', 'time'))
                         if c['tkind'] == 'i': h.nc.createVariable('time', 'i4' if c['fmt'] != 'NETCDF4' else 'i8', ('time',))
                         else: h.nc.createVariable('time', 'f8', ('time',))
                         pos = 0; alll = []; allv = []
@@ -300,11 +306,13 @@ class Write:
                                 # a scalar position and plain values carry no label: the time label is written explicitly
                                 h['v'].ix[pos] = piece.values[0]
                                 h.axes['time'][pos] = st['labels'][0]
+                            elif st['how'] == 'slice' and c.get('tlast'): h['v'].ix[:, pos:pos + m] = piece.T
                             elif st['how'] == 'slice': h['v'].ix[pos:pos + m] = piece
                             else: h['v'].ix[list(range(pos, pos + m))] = piece
                             pos += m; alll += st['labels']; allv += st['values']
                             got = h['v'].read()
                             want = D.DimArray(np.array(allv).reshape(len(alll), len(c['fixlabs'])), axes=[D.Axis(ops.labs_np(alll, c['tkind']), 'time'), h.axes['x'][:]])
+                            if c.get('tlast'): want = want.T
                             if json.dumps(c19.obs_array(got), sort_keys=True, default=str) != json.dumps(c19.obs_array(want), sort_keys=True, default=str) and c['_viol'] is None:
                                 c['_viol'] = 'after writing %d rows at positions %d.. of the unlimited dimension (%s), the variable reads %s instead of %s' % (m, pos - m, st['how'], json.dumps(c19.obs_array(got), default=str)[:400], json.dumps(c19.obs_array(want), default=str)[:400])
                         ov = c.get('overwrite')
@@ -337,7 +345,7 @@ class Write:
                         h.close()
                     back = D.read_nc(f, 'v')
                     c['_final'] = c19.obs_array(back)
-                    if c['_viol'] is None and [lab_json(x) for x in back.axes[0].values] != [lab_json(x) for x in ops.labs_np(alll, c['tkind'])]:
+                    if c['_viol'] is None and [lab_json(x) for x in back.axes['time'].values] != [lab_json(x) for x in ops.labs_np(alll, c['tkind'])]:
                         c['_viol'] = 'after closing, the unlimited axis reads %r instead of %r' % (back.axes[0].values.tolist(), alll)
                     c['_mem'] = c['_disk'] = ('val', {})
         except Unsupported: raise
@@ -362,7 +370,7 @@ class Write:
     @staticmethod
     def coq_case(c, res):
         if c['kind'] != 'unlimited' or c.get('_final') is None: return None
-        if c.get('overwrite') or c.get('straddle'): return None      # growth is modelled; the assignment inside the range is compared with the in-memory one (oracle)
+        if c.get('overwrite') or c.get('straddle') or c.get('tlast'): return None      # growth is modelled; the assignment inside the range is compared with the in-memory one (oracle)
         fk = 'O' if isinstance(c['fixlabs'][0], str) else ('f' if isinstance(c['fixlabs'][0], float) else 'i')
         nx = len(c['fixlabs'])
         f0 = ('{| nf_fmt3 := %s; nf_dims := [("time", 0); ("x", %d)]; nf_unl := ["time"]; nf_vars := [("x", {| nv_dims := ["x"]; nv_kind := %s; nv_data := map label_cell %s; nv_attrs := [] |}); '
